@@ -145,6 +145,10 @@ def finish(ctx, level="other"):
         print("  rule=%s key=%s" % (v["rule"], v["key"]))
         print("  at %s: %s" % (v["where"], v["msg"]))
     insts = ctx.instances
+    if os.environ.get("RR_DUMP_INSTANCES"):      # triage aid: every instance (rule, key, holds), one per line
+        with open(os.environ["RR_DUMP_INSTANCES"], "a") as f:
+            for i in insts:
+                f.write("%s\t%s\t%s\t%s\n" % (i["rule"], i["key"], i["ok"], str(i.get("detail"))[:300]))
     distinct = len({(i["rule"], i["key"]) for i in insts})
     samples = []
     per_rule_seen = {}
